@@ -1,7 +1,7 @@
 (* SI/Props.v — theorems of property C01 (snapshot isolation and external consistency), over the MVCC store
    model Mvcc/Model.v ([step], [run]) for ALL command sequences obeying the timestamp discipline [oracle_ts]
    (Mvcc/Spec.v), plus an abstract event order for external consistency. Definitions: SI/Model.v. *)
-From Verif Require Import SI.Model SI.ProofsTrans SI.ProofsRead SI.ProofsWW SI.ProofsIns SI.ProofsInsPoint SI.ProofsExt SI.ProofsOracle.
+From Verif Require Import SI.Model SI.ProofsTrans SI.ProofsRead SI.ProofsKeyed SI.AsyncStore SI.ProofsWW SI.ProofsIns SI.ProofsInsPoint SI.ProofsExt SI.ProofsOracle.
 
 (* ---- 1. reads are a function of the committed history restricted to commit ts <= read ts *)
 (* a point get on any reachable store answers either the history read at its read ts (at [eff_ts], which is the
@@ -42,6 +42,31 @@ Theorem C01_stable_from_rules : forall a b k t, oracle_ts (a ++ b) = true -> rea
   stable_suffix (run a) k t b = true.
 Proof. exact rules_imply_stable. Qed.
 Print Assumptions C01_stable_from_rules.
+
+(* per-key form: only the pairs a command applies to key k count (a commit of the lock holder on OTHER keys is free) *)
+Theorem C01_read_stable_key : forall a b k t, oracle_ts (a ++ b) = true -> stable_suffix_k (run a) k t b = true ->
+  read_at (run (a ++ b)) k t = read_at (run a) k t.
+Proof. exact read_stable_k. Qed.
+Print Assumptions C01_read_stable_key.
+
+(* async commit / 1PC from the store's mechanics (SI/AsyncStore.v: max_ts, min_commit_ts = max(requested, max_ts + 1)
+   recorded with the lock, commit / resolve refused below it, 1PC committing at it): after a read of k at t was served
+   (max_ts >= t), no sequence of requests changes that read - with NO hypothesis on the async prewrites and 1PC
+   requests; requests of the base protocol (2PC) keep the rules of C01_stable_from_rules *)
+Theorem C01_async_read_stable : forall a b k t,
+  oracle_ts (abase_run a0 a ++ abase_run (arun a) b) = true -> t <= a_max (arun a) ->
+  forallb (gc_ok t) (abase_run (arun a) b) = true ->
+  forallb (base_rule k t (flat_map cmd_pairs (abase_run (arun a) b))) b = true ->
+  met_rule (a_st (arun a)) k t (flat_map cmd_pairs (abase_run (arun a) b)) = true ->
+  a_st (arun (a ++ b)) = run (abase_run a0 a ++ abase_run (arun a) b) /\
+  read_at (a_st (arun (a ++ b))) k t = read_at (a_st (arun a)) k t.
+Proof. exact async_read_stable. Qed.
+Print Assumptions C01_async_read_stable.
+
+Theorem C01_async_served_read_bumps_max_ts : forall a k t rs x, t <> max_ts ->
+  t <= a_max (arun_from (astep a (ABase (Get k t rs))) x).
+Proof. exact served_get_max. Qed.
+Print Assumptions C01_async_served_read_bumps_max_ts.
 
 (* ---- 2. write-write: committed records of two transactions on one key have disjoint
    [lock point, commit ts] intervals; lock point = for-update ts of the pessimistic lock, else the start ts *)
@@ -90,6 +115,15 @@ Theorem C01_external_consistency : forall tr d j x c r y s,
   c < s + d.
 Proof. exact ext_consistent. Qed.
 Print Assumptions C01_external_consistency.
+
+(* async commit / 1PC: commit_rule 1 is not assumed but derived from the store mechanics along a joint trace of oracle
+   issues, store requests and acknowledgements ([jrules]: oracle increasing; request timestamps were issued earlier,
+   requested min_commit_ts <= latest + 1; the acknowledged commit ts is a min_commit_ts the store returned):
+   every timestamp issued after the acknowledgement - in particular a later Begin's start ts - is >= the commit ts *)
+Theorem C01_async_external_consistency : forall p c q s r,
+  jrules a0 0 [] (p ++ JAck c :: q ++ JTso s :: r) = true -> c <= s.
+Proof. exact async_external_consistency. Qed.
+Print Assumptions C01_async_external_consistency.
 
 (* ---- 5. the history oracle is sound: observations produced by point gets on the intermediate stores (or by own
    writes) are accepted by the checker run on the FINAL committed history *)
@@ -152,6 +186,23 @@ Example ex_unstable_changes : oracle_ts ex_unstable = true
   /\ stable_suffix (run (firstn 1 ex_unstable)) 1 (T 5) (skipn 1 ex_unstable) = false
   /\ read_at (run (firstn 1 ex_unstable)) 1 (T 5) = None /\ read_at (run ex_unstable) 1 (T 5) = Some 17.
 Proof. vm_compute. repeat split. Qed.
+(* async commit: reader at 5, then an async prewrite of k1 by the transaction started at 4: the store answers
+   min_commit_ts = 5 + 1, refuses its commit at 4 + 1 and accepts it at 8; the read at 5 is unchanged *)
+Definition ex_async : list acmd :=
+  [ ABase (Prewrite [mkMut MPut 1 17 AsNone false] 1 (T 1) 0 1 0 false); ABase (Commit [1] (T 1) (T 3));
+    ABase (Get 1 (T 5) []);
+    AsyncPrewrite [mkMut MPut 1 33 AsNone false] 1 (T 4) 0 1 0 false;
+    ABase (Commit [1] (T 4) (T 4 + 1)); ABase (Commit [1] (T 4) (T 8)) ].
+Example ex_async_run : a_max (arun (firstn 3 ex_async)) = T 5
+  /\ returned_mc (arun (firstn 3 ex_async)) (nth 3 ex_async (ACheckSecondary [] 0)) = [T 5 + 1]
+  /\ abase (arun (firstn 4 ex_async)) (nth 4 ex_async (ACheckSecondary [] 0)) = []
+  /\ oracle_ts (abase_run a0 (firstn 3 ex_async) ++ abase_run (arun (firstn 3 ex_async)) (skipn 3 ex_async)) = true
+  /\ forallb (base_rule 1 (T 5) (flat_map cmd_pairs (abase_run (arun (firstn 3 ex_async)) (skipn 3 ex_async)))) (skipn 3 ex_async) = true
+  /\ read_at (a_st (arun ex_async)) 1 (T 5) = Some 17 /\ read_at (a_st (arun ex_async)) 1 (T 8) = Some 33.
+Proof. vm_compute. repeat split. Qed.
+Example ex_jrules : jrules a0 0 [] [JTso 10; JReq (AsyncPrewrite [mkMut MPut 1 33 AsNone false] 1 10 0 1 11 false); JAck 11; JTso 20] = true
+  /\ jrules a0 0 [] [JTso 10; JReq (OnePC [mkMut MPut 1 33 AsNone false] 1 10 0 1 0 false); JAck 9; JTso 11] = false.
+Proof. vm_compute. split; reflexivity. Qed.
 (* event order: x commits (2PC) and is acknowledged, then y begins *)
 Definition ex_trace : list ev :=
   [ EvBeginCall 1; EvTso 10; EvBeginRet 1 10; EvTso 20; EvAck 1 20; EvBeginCall 2; EvTso 30; EvBeginRet 2 30 ].
